@@ -12,6 +12,7 @@ import (
 	"github.com/free5gc/go-upf/internal/verif/c16"
 	"github.com/free5gc/go-upf/internal/verif/c19"
 	"github.com/free5gc/go-upf/internal/verif/c20"
+	"github.com/free5gc/go-upf/internal/verif/fworld"
 	"github.com/free5gc/go-upf/internal/verif/pworld"
 	"github.com/free5gc/go-upf/internal/verif/seqx"
 	"github.com/free5gc/go-upf/internal/verif/sworld"
@@ -29,6 +30,7 @@ var checks = map[string]func(tier string){
 	"C09": sworld.RunC09,
 	"C11": sworld.RunC11,
 	"C12": sworld.RunC12,
+	"C13": fworld.RunC13,
 	"C14": c14.Run,
 	"C15": pworld.Run,
 	"C16": c16.Run,
@@ -57,6 +59,12 @@ func main() {
 			os.Exit(2)
 		}
 		f(os.Args[3])
+	case "replay":
+		n := 1
+		if len(os.Args) > 3 {
+			fmt.Sscan(os.Args[3], &n)
+		}
+		os.Exit(seqx.ReplayMain(os.Args[2], n))
 	case "seqx":
 		seqx.WorkerMain(os.Args[2:])
 	default:
